@@ -76,6 +76,7 @@ type c14Gen struct {
 	hist    map[string]int
 	noGlob  bool // generating a pure function
 	pending []*c14Var
+	mrFuncs []c14FuncSig
 	inInit  bool
 	noFault int  // > 0: no expression that may fail (arguments of inlined helpers are substituted by name)
 	noRet   bool // no early return (functions with several results)
@@ -1206,7 +1207,21 @@ func (g *c14Gen) callStmt() {
 	g.tag("multi-return")
 	var lhs []string
 	fresh := g.r.bool()
+	// results that are nil after a recovered panic ([]byte, pointer, map) are not made available to the other
+	// statement templates, which assume non-nil values (copy from a nil slice, delete / comma-ok on a nil map fault
+	// in the VM: F155 in notes/C14.md); they are consumed by reveal only
+	nilProne := func(t string) bool { return t == "[]byte" || t == "*S" || strings.HasPrefix(t, "map[") }
 	for _, t := range f.rets {
+		if nilProne(t) {
+			fresh = true
+		}
+	}
+	for _, t := range f.rets {
+		if fresh && nilProne(t) {
+			g.nvar++
+			lhs = append(lhs, fmt.Sprintf("w%d", g.nvar))
+			continue
+		}
 		if fresh {
 			v := g.declare(t, false, c14M)
 			if t == "string" {
@@ -1226,10 +1241,150 @@ func (g *c14Gen) callStmt() {
 	if fresh {
 		op = ":="
 	}
+	allBlank := true
+	for _, l := range lhs {
+		if l != "_" {
+			allBlank = false
+		}
+	}
+	if allBlank {
+		op = "="
+	}
 	g.emitf("%s %s %s", strings.Join(lhs, ", "), op, e)
 	if fresh {
 		g.emitf("%s = %s", strings.TrimSuffix(strings.Repeat("_, ", len(lhs)), ", "), strings.Join(lhs, ", "))
 	}
+	// every result is used in a way that shows its type and its position
+	if acc := g.pickVar("int", true); acc != nil && !contains(lhs, acc.name) {
+		for i, l := range lhs {
+			if l != "_" {
+				g.reveal(acc.name, l, f.rets[i], i)
+			}
+		}
+	}
+}
+
+// reveal folds the value v of type typ into the int variable acc so that a value of another type, or the zero value
+// in place of a non-zero one, changes the outcome (or makes one side fail).
+func (g *c14Gen) reveal(acc, v, typ string, pos int) {
+	k := 3 + 2*pos
+	switch typ {
+	case "int":
+		g.emitf("%s = (%s*31 + %s*%d) %% %d", acc, acc, v, k, c14M)
+	case "bool":
+		g.emitf("if %s {", v)
+		g.emitf("\t%s = (%s + %d) %% %d", acc, acc, 100+k, c14M)
+		g.emitf("}")
+	case "string":
+		g.emitf("%s = (%s*7 + len(%s)*%d) %% %d", acc, acc, v, k, c14M)
+	case "[]int":
+		g.emitf("%s = (%s + len(%s)*%d) %% %d", acc, acc, v, 10+k, c14M)
+		g.emitf("for ri, rv := range %s {", v)
+		g.emitf("\t%s = (%s + rv*(ri+%d)) %% %d", acc, acc, k, c14M)
+		g.emitf("}")
+	case "[]byte":
+		g.emitf("%s = (%s + len(%s)*%d) %% %d", acc, acc, v, 20+k, c14M)
+		g.emitf("if len(%s) > 0 {", v)
+		g.emitf("\t%s = (%s + int(%s[0])) %% %d", acc, acc, v, c14M)
+		g.emitf("}")
+	case "S":
+		g.emitf("%s = (%s + %s.a*%d + len(%s.s) + %s.in.p + len(%s.xs)) %% %d", acc, acc, v, k, v, v, v, c14M)
+		g.emitf("if %s.b {", v)
+		g.emitf("\t%s = (%s + %d) %% %d", acc, acc, 200+k, c14M)
+		g.emitf("}")
+	case "*S":
+		g.emitf("if %s != nil {", v)
+		g.emitf("\t%s = (%s + %s.a*%d + %s.in.q + 1) %% %d", acc, acc, v, k, v, c14M)
+		g.emitf("}")
+	case "map[int]int", "map[string]int":
+		g.emitf("%s = (%s + len(%s)*%d) %% %d", acc, acc, v, 30+k, c14M)
+		g.emitf("for _, rv := range %s {", v)
+		g.emitf("\t%s = (%s + rv) %% %d", acc, acc, c14M)
+		g.emitf("}")
+	}
+}
+
+// nonZero: an expression of type typ that is not the zero value, built from the int variable x
+func (g *c14Gen) nonZero(typ, x string) string {
+	switch typ {
+	case "int":
+		return fmt.Sprintf("%s%%1000 + %d", x, 1001+g.r.intn(50))
+	case "bool":
+		return "true"
+	case "string":
+		return fmt.Sprintf("%q", pick(g.r, []string{"ok", "neo", "result!"}))
+	case "[]int":
+		return fmt.Sprintf("[]int{%s %% 100, %d}", x, 1+g.r.intn(9))
+	case "[]byte":
+		return fmt.Sprintf("[]byte{%d, %d, 3}", 1+g.r.intn(200), g.r.intn(200))
+	case "S":
+		return fmt.Sprintf("S{a: %s%%50 + 1, b: true, s: \"st\", xs: []int{1}, in: T{p: %d, q: 2}}", x, 1+g.r.intn(9))
+	case "*S":
+		return fmt.Sprintf("&S{a: %s%%50 + 1, in: T{q: %d}}", x, 1+g.r.intn(9))
+	case "map[int]int":
+		return fmt.Sprintf("map[int]int{1: %s %% 100, 2: %d}", x, 1+g.r.intn(9))
+	}
+	panic("nonZero " + typ)
+}
+
+// multiRecover: a function with two or three results of different types that recovers, in its own deferred call, a
+// panic raised under it; after the recovery the results are the zero values, in the order of the result list (the
+// code generator pushes them itself; the first result is on top of the stack). Results are unnamed, or named with
+// one name per result and not assigned before the panic (F149, F154: see notes/C14.md).
+func (g *c14Gen) multiRecover(name string) {
+	r := g.r
+	all := []string{"int", "bool", "string", "[]int", "[]byte", "S", "*S", "map[int]int", "int"}
+	n := 2 + r.intn(2)
+	var rets []string
+	for len(rets) < n {
+		t := all[r.intn(len(all))]
+		if !contains(rets, t) || (t == "int" && r.chance(30)) {
+			rets = append(rets, t)
+		}
+	}
+	g.tag("multi-recover")
+	named := r.chance(40)
+	var rs []string
+	for i, t := range rets {
+		if named {
+			rs = append(rs, fmt.Sprintf("r%d %s", i, t))
+		} else {
+			rs = append(rs, t)
+		}
+	}
+	g.emitf("func %s(a int, f bool) (%s) {", name, strings.Join(rs, ", "))
+	g.indent++
+	switch r.intn(3) {
+	case 0:
+		g.emitf("defer func() {")
+		g.emitf("\trecover()")
+		g.emitf("}()")
+	case 1:
+		g.emitf("defer func() {")
+		g.emitf("\tif x := recover(); x != nil {")
+		g.emitf("\t\tnote(%d)", 500+r.intn(50))
+		g.emitf("\t}")
+		g.emitf("}()")
+	default:
+		g.emitf("defer recoverer()")
+	}
+	g.emitf("x := thrower(a) * 3")
+	g.emitf("_ = x")
+	if r.bool() {
+		g.emitf("if f {")
+		g.emitf("\tx = thrower(x+a) + x")
+		g.emitf("}")
+	}
+	var vals []string
+	for _, t := range rets {
+		vals = append(vals, g.nonZero(t, "x"))
+	}
+	g.emitf("return %s", strings.Join(vals, ", "))
+	g.indent--
+	g.emitf("}")
+	g.emitf("")
+	g.funcs = append(g.funcs, c14FuncSig{name: name, params: []string{"int", "bool"}, rets: rets, pure: true})
+	g.mrFuncs = append(g.mrFuncs, c14FuncSig{name: name, rets: rets})
 }
 
 func contains(xs []string, x string) bool {
@@ -1598,6 +1753,14 @@ func c14GenUnit(r *rng, pkg string, nEntry int, hist map[string]int) c14Unit {
 	for _, n := range []string{"rec1", "recA", "recB", "fib"} {
 		_ = n
 	}
+	// several results of different types, also after a recovered panic
+	g.emitf("func recoverer() {")
+	g.emitf("\trecover()")
+	g.emitf("}")
+	g.emitf("")
+	for i := 0; i < 3+r.intn(3); i++ {
+		g.multiRecover(fmt.Sprintf("mr%d", i))
+	}
 	// defer / recover templates
 	ndef := 1 + r.intn(3)
 	for i := 0; i < ndef; i++ {
@@ -1623,6 +1786,33 @@ func c14GenUnit(r *rng, pkg string, nEntry int, hist map[string]int) c14Unit {
 			g.emitf("}")
 			g.emitf("")
 			entries = append(entries, c14Func{Name: name, Params: []string{"int", "int"}, Ret: "int"})
+			continue
+		case i%9 == 6: // several results, normal path and path of the recovered panic
+			g.tag("multi-recover-entry")
+			f := g.mrFuncs[r.intn(len(g.mrFuncs))]
+			g.emitf("func %s(a int, f bool) int {", name)
+			g.indent++
+			g.emitf("acc := a %% 1000")
+			for k, arg := range []string{"a", "(a%1000)*5 + 3", "(a%1000)*5 + 1"} {
+				var lhs []string
+				for i := range f.rets {
+					lhs = append(lhs, fmt.Sprintf("u%d_%d", k, i))
+				}
+				if k == 2 && len(lhs) > 2 {
+					lhs[1] = "_"
+				}
+				g.emitf("%s := %s(%s, f)", strings.Join(lhs, ", "), f.name, arg)
+				for i, l := range lhs {
+					if l != "_" {
+						g.reveal("acc", l, f.rets[i], i)
+					}
+				}
+			}
+			g.emitf("return (acc + logsum()) %% %d", c14M)
+			g.indent--
+			g.emitf("}")
+			g.emitf("")
+			entries = append(entries, c14Func{Name: name, Params: []string{"int", "bool"}, Ret: "int"})
 			continue
 		case i%9 == 8: // defer entry
 			g.tag("defer-entry")
